@@ -211,8 +211,10 @@ Definition targets (pname : string) (e : doc) : list string :=
   dedup (List.map p_id
     (filter (fun q => String.eqb pname (p_name q) && mem (p_id q) (d_desc e)) (d_pkgs e))).
 
+(* the first package carrying the apk's name that is not the imported element
+   itself (fix 494ce81: replacing an element by itself deleted it) *)
 Definition replace_step (pname : string) (d : doc) (id : string) : doc :=
-  match find (fun q => String.eqb (p_name q) pname) (d_pkgs d) with
+  match find (fun q => String.eqb (p_name q) pname && negb (String.eqb (p_id q) id)) (d_pkgs d) with
   | Some q => replace_package d (p_id q) id
   | None => d
   end.
